@@ -3,6 +3,7 @@ Lemmas: the sequence functions (`element`, `slice`, `reverse`, `compact`,
 `sort`, `distinct`, `coalescelist`, `chunklist`) compute their specifications.
 -/
 import CtyModel.Lemmas.StdlibBasic
+import CtyModel.Lemmas.SetRefineSort
 namespace CtyModel
 namespace Stdlib
 open Value
@@ -190,10 +191,45 @@ theorem zipTV_reverse (ts : List Ty) (vs : List Payload) (h : ts.length = vs.len
 
 theorem reverseImpl_tuple (E : Env) (ts : List Ty) (vs : List Payload) (h : ts.length = vs.length) :
     reverseImpl E [⟨.tuple ts, .seq vs⟩] (.tuple ts.reverse) = .ok ⟨.tuple ts.reverse, .seq vs.reverse⟩ := by
-  simp only [reverseImpl, Value.unmark, Payload.unmark1, asValueSlice_tuple E ts vs h, reverseLoop_eq,
+  simp only [reverseImpl, Value.unmark, Payload.unmark1, isSetTy, Bool.false_and, Bool.false_eq_true, if_false,
+    asValueSlice_tuple E ts vs h, reverseLoop_eq,
     List.append_nil, isTupleTy, if_true, Value.marks, Payload.marks1, zipTV_reverse ts vs h]
   simp [Gocty.tupleVal, tysOf_zipTV, payloads_zipTV, h, withMarkSets, Fn.withMarkSets, Fn.unionAll,
     Value.withMarks, Payload.withMarks, Payload.marks1, unionMarks]
+
+/-- a set that is not wholly known: neither its iteration order nor its number of
+members is settled, so the result is an unknown of the result type carrying the
+argument's marks -/
+theorem reverseImpl_set_unknown (E : Env) (arg : Value) (e : Ty) (retTy : Ty)
+    (ht : arg.ty = .set e) (hk : arg.unmark.whollyKnown = false) :
+    reverseImpl E [arg] retTy = .ok (withMarkSets (Value.unknown retTy) [arg.marks]) := by
+  have hs : isSetTy arg.unmark.ty = true := by simp [Value.unmark, ht, isSetTy]
+  simp [reverseImpl, hs, hk]
+
+/-- a wholly known set: the list of its members in reversed iteration order -/
+theorem reverseImpl_set_known (E : Env) (e : Ty) (he : e.equals e = true) (ids : List Int) (vs : List Payload)
+    (hk : Payload.whollyKnownL vs = true) :
+    reverseImpl E [⟨.set e, .sset ids vs⟩] (.list e) = .ok (mkList e (setIter E e vs).reverse) := by
+  have hwk : (⟨.set e, .sset ids vs⟩ : Value).whollyKnown = true := by
+    simp [Value.whollyKnown, Payload.whollyKnown, hk]
+  have hu : (⟨.set e, .sset ids vs⟩ : Value).unmark = ⟨.set e, .sset ids vs⟩ := rfl
+  have hm : (⟨.set e, .sset ids vs⟩ : Value).marks = [] := rfl
+  have hlen : (setIter E e vs).length = vs.length := (SetImpl.sortStable_perm _ vs).length_eq
+  have hsl : asValueSlice E ⟨.set e, .sset ids vs⟩ = .ok ((setIter E e vs).map (⟨e, ·⟩)) := by
+    cases vs with
+    | nil => rfl
+    | cons v vs => simp [asValueSlice]
+  simp only [reverseImpl, hu, hm, hwk, Bool.not_true, Bool.and_false, Bool.false_eq_true, if_false, hsl,
+    reverseLoop_eq, List.append_nil, isTupleTy, List.length_reverse, List.length_map, hlen]
+  by_cases h0 : vs.length = 0
+  · have : vs = [] := List.eq_nil_of_length_eq_zero h0
+    subst this
+    rfl
+  · have hne : (setIter E e vs).reverse ≠ [] := by
+      intro h; apply h0; have := congrArg List.length h; simp [hlen] at this; simp [this]
+    simp only [h0, beq_iff_eq, if_false, ← List.map_reverse]
+    rw [listVal_map e he _ hne]
+    rfl
 
 theorem reverseType_list (e : Ty) (p : Payload) : reverseType [⟨.list e, p⟩] = .ok (.list e) := rfl
 theorem reverseType_set (e : Ty) (p : Payload) : reverseType [⟨.set e, p⟩] = .ok (.list e) := rfl
